@@ -37,6 +37,8 @@ pub enum Edit {
     AnnValue(usize, String),
     /// set a JSON path of the document to a value
     Set(String, Value),
+    /// several paths at once
+    SetMany(Vec<(String, Value)>),
     Remove(String),
     RenameKey(String, String, String),
     Insert(String, String, Value),
@@ -66,6 +68,7 @@ impl Edit {
             Edit::AnnTruncateList(i) => format!("truncate-list:{}", ann_class(i)),
             Edit::AnnValue(i, _) => format!("value-not-below-prime:{}", ann_class(i)),
             Edit::Set(p, _) => format!("set:{}", jw::path_class(&jw::parse_path(p))),
+            Edit::SetMany(ps) => format!("set-many:{}", ps.iter().map(|(p, _)| jw::path_class(&jw::parse_path(p))).collect::<Vec<_>>().join("+")),
             Edit::Remove(p) => format!("remove:{}", jw::path_class(&jw::parse_path(p))),
             Edit::RenameKey(p, _, _) => format!("rename-key:{}", p),
             Edit::Insert(p, _, _) => format!("insert:{}", p),
@@ -83,6 +86,7 @@ impl Edit {
             Edit::AnnTruncateList(i) => json!({"e": "ann-truncate-list", "line": i}),
             Edit::AnnValue(i, h) => json!({"e": "ann-value", "line": i, "hex": h}),
             Edit::Set(p, v) => json!({"e": "set", "path": p, "value": v}),
+            Edit::SetMany(ps) => json!({"e": "set-many", "sets": ps.iter().map(|(p, v)| json!([p, v])).collect::<Vec<_>>()}),
             Edit::Remove(p) => json!({"e": "remove", "path": p}),
             Edit::RenameKey(p, a, b) => json!({"e": "rename-key", "path": p, "from": a, "to": b}),
             Edit::Insert(p, k, v) => json!({"e": "insert", "path": p, "key": k, "value": v}),
@@ -102,6 +106,7 @@ impl Edit {
             "ann-truncate-list" => Edit::AnnTruncateList(u("line")?),
             "ann-value" => Edit::AnnValue(u("line")?, s("hex")?),
             "set" => Edit::Set(s("path")?, v.get("value")?.clone()),
+            "set-many" => Edit::SetMany(v.get("sets")?.as_array()?.iter().map(|x| Some((x.get(0)?.as_str()?.to_string(), x.get(1)?.clone()))).collect::<Option<Vec<_>>>()?),
             "remove" => Edit::Remove(s("path")?),
             "rename-key" => Edit::RenameKey(s("path")?, s("from")?, s("to")?),
             "insert" => Edit::Insert(s("path")?, s("key")?, v.get("value")?.clone()),
@@ -154,6 +159,12 @@ impl Edit {
                     return None;
                 }
                 *slot = v.clone();
+            }
+            Edit::SetMany(ps) => {
+                for (p, v) in ps {
+                    let slot = jw::get_mut(&mut d, &jw::parse_path(p))?;
+                    *slot = v.clone();
+                }
             }
             Edit::Remove(p) => {
                 let path = jw::parse_path(p);
@@ -331,6 +342,18 @@ fn structure_edits(doc: &Value) -> Vec<Edit> {
             out.push(Edit::Set(format!("{}.value", base), json!(v)));
         }
         out.push(Edit::Remove(base));
+    }
+    // several continuous pages at once: listed in id order, out of id order, interleaved with the main page,
+    // and with the file's first entry on a continuous page
+    if n_cells >= 6 {
+        let pm = |i: usize| format!("public_input.public_memory[{}].page", i);
+        let (a, b, c) = (n_cells - 3, n_cells - 2, n_cells - 1);
+        out.push(Edit::SetMany(vec![(pm(b), json!(1)), (pm(c), json!(2))]));
+        out.push(Edit::SetMany(vec![(pm(b), json!(2)), (pm(c), json!(1))]));
+        out.push(Edit::SetMany(vec![(pm(a), json!(1)), (pm(c), json!(1))]));
+        out.push(Edit::SetMany(vec![(pm(a), json!(2)), (pm(b), json!(1)), (pm(c), json!(2))]));
+        out.push(Edit::SetMany(vec![(pm(0), json!(1)), (pm(c), json!(2))]));
+        out.push(Edit::SetMany(vec![(pm(0), json!(2)), (pm(1), json!(1))]));
     }
     out.push(Edit::Set("public_input.public_memory".into(), json!([])));
     // dynamic parameters
